@@ -37,7 +37,7 @@ def has_set(v):
     return False
 
 
-def check_instance(cls, obj, acc, tmp: Path, origin):
+def check_instance(cls, obj, acc, tmp: Path, origin, consts=None):
     """-> (kind, detail) or None"""
     name = cls.__name__
     try:
@@ -67,7 +67,7 @@ def check_instance(cls, obj, acc, tmp: Path, origin):
         if form == "bytes" and not has_set(obj):
             if bytes(back) != b:
                 return "second-roundtrip", f"{name}: second dump differs: {b[:120]!r} vs {bytes(back)[:120]!r}"
-    consts = getattr(cls, "__constants__", {}) or {}
+    consts = consts if consts is not None else (getattr(cls, "__constants__", {}) or {})
     if consts:
         acc.count("constant_checks")
         for ck, cv in consts.items():
@@ -85,7 +85,7 @@ def check_instance(cls, obj, acc, tmp: Path, origin):
     return None
 
 
-def run_classes(acc, classes, rng, per, origin, tmp):
+def run_classes(acc, classes, rng, per, origin, tmp, consts_of=None):
     from vlib import schemagen as G
     for cls in classes:
         stats = {}
@@ -94,7 +94,7 @@ def run_classes(acc, classes, rng, per, origin, tmp):
             n += 1
             nfields = len([k for k, v in obj.__dict__.items() if v is not None])
             acc.case([origin, cls.__name__, sorted(cls.__fields__), json.dumps(d, sort_keys=True, default=str)], nontrivial=nfields >= 2)
-            r = check_instance(cls, obj, acc, tmp, origin)
+            r = check_instance(cls, obj, acc, tmp, origin, consts_of.get(cls) if consts_of else None)
             if r:
                 acc.violation(f"{r[0]}:{origin}", f"{r[1]} [input {json.dumps(d, default=str)[:300]}]",
                               {"origin": origin, "class": cls.__name__, "input": json.loads(json.dumps(d, default=str))})
@@ -131,6 +131,15 @@ def run_unit(u, acc):
             from metador_core.plugins import schemas
             classes = [schemas.get(r.name, tuple(r.version)) for r in schemas.keys()]
             run_classes(acc, classes, rng, u["per"], "installed", tmp)
+            # the same plugins obtained WITHOUT a version (marked classes handed out by schemas[name] / schemas.get(name))
+            names = sorted({r.name for r in schemas.keys()})
+            unv = [schemas[n] for n in names[::2]] + [schemas.get(n) for n in names[1::2]]
+            # declared constants are taken from the VERSIONED class of the same plugin (not from the class under test)
+            truth = {}
+            for c in unv:
+                ref = schemas.resolve(c.Plugin.name)
+                truth[c] = dict(schemas.get(ref.name, tuple(ref.version)).__constants__)
+            run_classes(acc, unv, rng, max(6, u["per"] // 4), "installed-versionless", tmp, consts_of=truth)
         else:
             for _ in range(u["families"]):
                 run_classes(acc, G.gen_family(rng, 4), rng, u["per"], "generated", tmp)
@@ -141,7 +150,7 @@ def run_unit(u, acc):
 def inconclusive(cov):
     c = cov["counters"]
     r = [f"monitor counter {k} is zero" for k in ("roundtrips.bytes", "roundtrips.yaml", "roundtrips.yaml-file", "constant_checks",
-                                                  "classes.installed", "classes.generated") if not c.get(k)]
+                                                  "classes.installed", "classes.installed-versionless", "classes.generated") if not c.get(k)]
     acc, rej = c.get("candidates_accepted", 0), c.get("candidates_rejected", 0)
     if acc < 0.2 * (acc + rej):
         r.append(f"acceptance rate of the instance generator too low: {acc}/{acc + rej}")
